@@ -1,6 +1,6 @@
 (* C29 — Roller prefers the last working fingerprint and tries each at most once.
    For every configured id list without duplicates, every outcome of the shuffle
-   (any permutation), every remembered working id, every TCP behaviour, every
+   (any permutation), every remembered working id, every TCP connect latency (or refusal) and TCP dial timeout, every
    sequence of generated seeds, every handshake timeout, every starting time and
    every way the peer treats the fingerprints it sees (serve / refuse after any
    delay, or stay silent until the timeout). *)
@@ -8,26 +8,26 @@ From UV Require Import Base.Common Model.Roller Proofs.RollerP.
 From Coq Require Import Permutation ZifyBool ZifyNat ZifyN.
 
 Section C29.
-  Variables (ids sh : list hid) (working : option hid) (tcp : nat -> bool) (gen : nat -> N)
+  Variables (ids sh : list hid) (working : option hid) (tcpd : nat -> tcp_beh) (Dt : N) (gen : nat -> N)
             (T : N) (peer : hid -> peer_beh) (now : N).
   Hypothesis ids_nodup : NoDup ids.
   Hypothesis sh_perm : Permutation ids sh.
-  Notation r := (dial sh working tcp gen T peer now).
+  Notation r := (dial sh working tcpd Dt gen T peer now).
 
   (* starts with the remembered id; the fingerprint sent first is the one that id denotes *)
   Theorem C29_first : forall w, working = Some w ->
     tried r = [] \/ (hd_error (tried r) = Some w /\ hd_error (map fst (wire r)) = Some (conn_id gen 0 w)).
-  Proof. exact (dial_first sh working tcp gen T peer now). Qed.
+  Proof. exact (dial_first sh working tcpd Dt gen T peer now). Qed.
 
   (* each configured id (or the remembered one) at most once; one ClientHello per id tried *)
   Theorem C29_once : NoDup (tried r) /\ incl (tried r) (pool ids working) /\
                      map fst (wire r) = fps gen 0 (tried r).
-  Proof. exact (dial_once ids sh working tcp gen T peer now ids_nodup sh_perm). Qed.
+  Proof. exact (dial_once ids sh working tcpd Dt gen T peer now ids_nodup sh_perm). Qed.
 
   (* every attempt gets the full timeout: how it ends depends only on what the peer does with
      that fingerprint, not on the time earlier attempts took *)
   Theorem C29_own_deadline : Forall (fun a => snd a = hs_outcome T (peer (fst a))) (wire r).
-  Proof. exact (dial_outcomes sh working tcp gen T peer now). Qed.
+  Proof. exact (dial_outcomes sh working tcpd Dt gen T peer now). Qed.
 
   (* returns the first connection whose handshake succeeds and records that connection's id
      (with the seed that defines its fingerprint) as working *)
@@ -35,24 +35,32 @@ Section C29.
     exists before, wire r = before ++ [(f, HsOk)] /\ would_succeed T (peer f) = true /\
                    Forall (fun a => would_succeed T (peer (fst a)) = false) before /\
                    working' r = Some f /\ unseeded f = false.
-  Proof. exact (dial_connected sh working tcp gen T peer now). Qed.
+  Proof. exact (dial_connected sh working tcpd Dt gen T peer now). Qed.
 
   (* ... so that the next Dial, whatever its shuffle, seeds, peer and timeout, starts with the
      very fingerprint that worked *)
-  Theorem C29_next_starts_with_working : forall f sh2 tcp2 gen2 T2 peer2 now2, result r = Connected f ->
-    let r2 := dial sh2 (working' r) tcp2 gen2 T2 peer2 now2 in
+  Theorem C29_next_starts_with_working : forall f sh2 tcpd2 Dt2 gen2 T2 peer2 now2, result r = Connected f ->
+    let r2 := dial sh2 (working' r) tcpd2 Dt2 gen2 T2 peer2 now2 in
     tried r2 = [] \/ hd_error (map fst (wire r2)) = Some f.
-  Proof. intros f sh2 tcp2 gen2 T2 peer2 now2. exact (dial_next_first sh working tcp gen T peer now f sh2 tcp2 gen2 T2 peer2 now2). Qed.
+  Proof. intros f sh2 tcpd2 Dt2 gen2 T2 peer2 now2. exact (dial_next_first sh working tcpd Dt gen T peer now f sh2 tcpd2 Dt2 gen2 T2 peer2 now2). Qed.
 
+  (* the TCP dial error is returned at once, and only when that dial fails on its own terms: the j-th connect is
+     refused or takes at least TcpDialTimeout - time spent in earlier attempts does not count against it *)
   Theorem C29_tcp_error : forall j, result r = TcpError j ->
-    tcp j = false /\ length (tried r) = j /\
+    tcp_connects Dt (tcpd j) = false /\ length (tried r) = j /\
     Forall (fun a => would_succeed T (peer (fst a)) = false) (wire r) /\ working' r = working.
-  Proof. exact (dial_tcp_error sh working tcp gen T peer now). Qed.
+  Proof. exact (dial_tcp_error sh working tcpd Dt gen T peer now). Qed.
+
+  (* hence a TCP dial error against a peer that does accept connections takes at least the whole TcpDialTimeout
+     on top of the whole TlsHandshakeTimeout of every handshake that timed out before *)
+  Theorem C29_tcp_error_takes_time : forall j d, result r = TcpError j -> tcpd j = Connects d ->
+    now + T * n_timeouts (wire r) + Dt <= t_end r.
+  Proof. intros j d R E. pose proof (dial_tcp_error_time sh working tcpd Dt gen T peer now j R) as H. rewrite E in H. exact H. Qed.
 
   Theorem C29_exhausted : result r = AllFailed \/ result r = NoIds ->
     Permutation (tried r) (pool ids working) /\
     Forall (fun a => would_succeed T (peer (fst a)) = false) (wire r) /\ working' r = working.
-  Proof. exact (dial_exhausted ids sh working tcp gen T peer now sh_perm). Qed.
+  Proof. exact (dial_exhausted ids sh working tcpd Dt gen T peer now sh_perm). Qed.
 
   (* the decidable observer check used against the implementation is sound for the model,
      provided generated seeds do not collide with configured ones *)
@@ -60,7 +68,10 @@ Section C29.
   Theorem C29_trace_ok :
     trace_ok ids working T (map (fun a => (fst a, peer (fst a))) (wire r))
              (conn_of (result r)) (is_tcp_err (result r)) = true.
-  Proof. exact (dial_trace_ok ids sh working tcp gen T peer now ids_nodup sh_perm gen_fresh). Qed.
+  Proof. exact (dial_trace_ok ids sh working tcpd Dt gen T peer now ids_nodup sh_perm gen_fresh). Qed.
+  Theorem C29_time_ok : (forall k, tcpd k <> Refused) ->
+    time_ok T Dt (map (fun a => (fst a, peer (fst a))) (wire r)) (is_tcp_err (result r)) true (t_end r - now) = true.
+  Proof. exact (dial_time_ok sh working tcpd Dt gen T peer now). Qed.
 End C29.
 Print Assumptions C29_first.
 Print Assumptions C29_once.
@@ -68,6 +79,8 @@ Print Assumptions C29_own_deadline.
 Print Assumptions C29_result.
 Print Assumptions C29_next_starts_with_working.
 Print Assumptions C29_tcp_error.
+Print Assumptions C29_tcp_error_takes_time.
+Print Assumptions C29_time_ok.
 Print Assumptions C29_exhausted.
 Print Assumptions C29_trace_ok.
 
@@ -78,7 +91,7 @@ Definition ex_peer (f : hid) : peer_beh :=
   if hid_eqb f (mkHid true 2 (Some 7)) then Silent else if base f =? 3 then Refuse 1 else Serve 5.
 Example C29_ex :
   let r := dial [mkHid false 3 None; mkHid false 1 None; mkHid true 2 None] (Some (mkHid true 2 (Some 7)))
-                (fun _ => true) (fun k => 100 + N.of_nat k) 300 ex_peer 0 in
+                (fun _ => Connects 1) 200 (fun k => 100 + N.of_nat k) 300 ex_peer 0 in
   tried r = [mkHid true 2 (Some 7); mkHid false 3 None; mkHid false 1 None] /\
   wire r = [(mkHid true 2 (Some 7), HsTimeout); (mkHid false 3 None, HsRejected); (mkHid false 1 None, HsOk)] /\
   result r = Connected (mkHid false 1 None) /\ working' r = Some (mkHid false 1 None).
@@ -86,8 +99,8 @@ Proof. vm_compute. auto. Qed.
 (* an unseeded randomized id is served: the recorded id carries the generated seed, and the next
    Dial (new seeds 200, 201, ...) sends that same fingerprint first *)
 Example C29_ex_seed :
-  let r := dial [mkHid true 2 None; mkHid false 3 None] None (fun _ => true) (fun k => 100 + N.of_nat k) 300 ex_peer 0 in
-  let r2 := dial [mkHid false 3 None; mkHid true 2 None] (working' r) (fun _ => true) (fun k => 200 + N.of_nat k) 300 ex_peer 0 in
+  let r := dial [mkHid true 2 None; mkHid false 3 None] None (fun _ => Connects 1) 200 (fun k => 100 + N.of_nat k) 300 ex_peer 0 in
+  let r2 := dial [mkHid false 3 None; mkHid true 2 None] (working' r) (fun _ => Connects 1) 200 (fun k => 200 + N.of_nat k) 300 ex_peer 0 in
   working' r = Some (mkHid true 2 (Some 100)) /\ map fst (wire r2) = [mkHid true 2 (Some 100)].
 Proof. vm_compute. auto. Qed.
 Example C29_ex_hyp :
